@@ -57,8 +57,15 @@ func TestC08Recovery(t *testing.T) {
 			c := "-2\n1\n"
 			cal, m, d = &c, -2, 1
 		}
-		origin := s.M.Offset
 		s.setClock(s.M.Offset + uint32(rapid.IntRange(0, 1500).Draw(t, "startClock")))
+		// the history origin is the window start, or lies strictly inside the
+		// window (a freshly provisioned device), in which case the very first
+		// reading is taken for the origin slot itself
+		origin := s.M.Offset
+		originInside := rapid.Bool().Draw(t, "originInsideWindow")
+		if originInside {
+			origin = s.now
+		}
 		client.VerifSetStepping(true)
 		cfg := world.ClientCfg{Key: devKey, GCA: s.gca.Pub, ShortID: id, HistoryOffset: origin, CT: cal, Energy: "timestamp,energy (mWh)\n",
 			Servers: map[[32]byte]ref.ClientServer{w.srvKey.Pub: {Location: "127.0.0.1", HttpPort: 1, TcpPort: relay.Port, UdpPort: hold.Port}}}
@@ -82,6 +89,11 @@ func TestC08Recovery(t *testing.T) {
 		failedSync := false
 		recovered := false
 		unticked := 0
+		// The client's own loop launches a sync round of its own after 30 ticks
+		// (it starts counting at 30 and syncs at 60); such a round would consume
+		// the relay's planned outcome. The history therefore grants at most 27
+		// ticks plus the final one.
+		ticksGranted := 0
 
 		collect := func(expectAtLeast int) {
 			hold.WaitCount(consumed+expectAtLeast, 2*time.Second)
@@ -124,9 +136,11 @@ func TestC08Recovery(t *testing.T) {
 		}
 		actions := map[string]func(*rapid.T){
 			"reading": func(t *rapid.T) {
-				s.setClock(s.now + uint32(rapid.SampledFrom([]int{1, 1, 1, 1, 2, 3}).Draw(t, "advance")))
+				if !(originInside && len(clientVal) == 0) { // the first reading of a fresh device is for the origin slot
+					s.setClock(s.now + uint32(rapid.SampledFrom([]int{1, 1, 1, 1, 2, 3}).Draw(t, "advance")))
+				}
 				slot := s.now
-				if _, dup := clientVal[slot]; dup || slot <= latest {
+				if _, dup := clientVal[slot]; dup || (slot <= latest && len(clientVal) > 0) {
 					t.Skip("slot already has a reading")
 				}
 				var lit string
@@ -171,6 +185,10 @@ func TestC08Recovery(t *testing.T) {
 				}
 				s.logf("burst of %d consecutive readings up to slot %d", n, latest)
 				world.WriteEnergy(cdir, file.String())
+				if ticksGranted >= 27 {
+					return // the readings are picked up by the final tick
+				}
+				ticksGranted++
 				if !world.Step(c, "tick") {
 					s.fail("client did not take the granted tick (panics %+v)", client.VerifPanics())
 				}
@@ -178,6 +196,10 @@ func TestC08Recovery(t *testing.T) {
 				unticked = 0
 			},
 			"tick": func(t *rapid.T) {
+				if ticksGranted >= 27 {
+					t.Skip("tick budget used (the client would start a sync round of its own)")
+				}
+				ticksGranted++
 				world.WriteEnergy(cdir, file.String())
 				s.logf("client tick (%d new readings)", unticked)
 				if !world.Step(c, "tick") {
